@@ -20,6 +20,9 @@ pub enum Case {
     /// R chosen by its x-coordinate (x in [n, p): r = x - n; or x < p - n: r = x, also presented as x + n), s and h arbitrary,
     /// public key Q = (sR - hG)/r: exercises the reduction of x(R) modulo n at the end of verification
     WrapX { c: u8, xoff: Vec<u8>, above_n: bool, odd: bool, s: Vec<u8>, h: Vec<u8>, present_unreduced: bool, half_len: u8 },
+    /// valid signature whose verification multipliers are chosen: u2 = r/s = u (a structured scalar: rounding boundaries of
+    /// the endomorphism split, short fractions, digit patterns, ...), u1 = h/s = v; R = vG + uQ, r = x(R) mod n, s = r/u, h = s*v
+    ChosenUV { c: u8, d: Vec<u8>, u: Vec<u8>, v: Vec<u8>, swap: bool },
     /// r, s from boundary sets with arbitrary hash
     Range { c: u8, d: Vec<u8>, r: Vec<u8>, s: Vec<u8>, hv: Vec<u8>, half_len: u8 },
     /// arbitrary signature / public key bytes
@@ -210,6 +213,25 @@ fn check(case: &Case) -> Outcome {
             acc.tag(if *present_unreduced { "r_presented_unreduced" } else { "r_presented_reduced" });
             compare(&mut acc, *c, &pk, &sig, &hv);
         }
+        Case::ChosenUV { c, d, u, v, swap } => {
+            let sch = &schemes()[*c as usize];
+            let n = &sch.curve.order;
+            let di = key_of(*c, d);
+            let q = sch.public(&di);
+            let (mut ui, mut vi) = (pf::from_le(u) % n, pf::from_le(v) % n);
+            if *swap { std::mem::swap(&mut ui, &mut vi); }
+            if ui.is_zero() { acc.nt(false); return acc.done(); }
+            let rpt = sch.curve.add(&sch.curve.mulgen(&vi), &sch.curve.mul(&ui, &q));
+            let Pt::A(x, _) = rpt else { acc.nt(false); return acc.done() };
+            let r = &x % n;
+            if r.is_zero() { acc.nt(false); return acc.done(); }
+            let si = pf::mul(&r, &pf::inv(&ui, n), n);
+            let hi = pf::mul(&si, &vi, n);
+            let pk = sch.curve.encode_uncompressed(&q);
+            let sig = encode_halves(&r, &si, 32, 0);
+            acc.tag("chosen_verification_multipliers");
+            compare(&mut acc, *c, &pk, &sig, &pf::to_be(&hi, 32));
+        }
         Case::Range { c, d, r, s, hv, half_len } => {
             let sch = &schemes()[*c as usize];
             let di = key_of(*c, d);
@@ -253,6 +275,7 @@ impl C08 {
             classes.push((cls(leak(format!("{n}/raw")), 300, 30_000), c, 4));
             classes.push((cls(leak(format!("{n}/key_decode")), 400, 40_000), c, 5));
             classes.push((cls(leak(format!("{n}/xR_wraps_n")), 200, 20_000), c, 6));
+            classes.push((cls(leak(format!("{n}/chosen_multipliers")), 900, 90_000), c, 7));
         }
         C08 { classes }
     }
@@ -292,7 +315,7 @@ impl Property for C08 {
         "C08"
     }
     fn rule(&self) -> String {
-        "Cases (P-256 and secp256k1): sign = sign_hash(key incl. 1 and n-1, hash of length 0..100, extra randomness 0..100 bytes) must equal the documented derivation byte for byte (RFC 6979 HMAC-SHA-256 with the extra input in both keying steps for P-256; SHA-512(le key || le h || extra) mod n for secp256k1), be deterministic, 64 bytes with non-zero r, s, and verify - optionally after one mutation (bit flip, hash change within / beyond the first 32 bytes, zero-extended or non-zero-padded halves, compressed key, odd length); xR_wraps_n = R chosen by abscissa with x(R) in [n, p) (r = x(R) - n must be accepted; the unreduced abscissa presented as r must be rejected) or x(R) < p - n (r accepted, r + n rejected), public key (sR - hG)/r; forged = signatures with chosen s and nonce through h = s*k - r*d, re-encoded on 1..70 bytes per half with zero / non-zero padding; range = r, s in {0,1,n-1,n,n+1,2^256-1,...}; raw = arbitrary key / signature / hash bytes; key decoding of private and public keys. Oracle: the verification predicate exactly as the property words it, in the reference model. All cases non-trivial; tags give the reference verdict and reason. distinct = distinct case hash.".into()
+        "Cases (P-256 and secp256k1): sign = sign_hash(key incl. 1 and n-1, hash of length 0..100, extra randomness 0..100 bytes) must equal the documented derivation byte for byte (RFC 6979 HMAC-SHA-256 with the extra input in both keying steps for P-256; SHA-512(le key || le h || extra) mod n for secp256k1), be deterministic, 64 bytes with non-zero r, s, and verify - optionally after one mutation (bit flip, hash change within / beyond the first 32 bytes, zero-extended or non-zero-padded halves, compressed key, odd length); chosen_multipliers = valid signatures built from chosen verification multipliers u2 = r/s (structured scalar classes incl. the rounding boundaries of the endomorphism split) and u1 = h/s; xR_wraps_n = R chosen by abscissa with x(R) in [n, p) (r = x(R) - n must be accepted; the unreduced abscissa presented as r must be rejected) or x(R) < p - n (r accepted, r + n rejected), public key (sR - hG)/r; forged = signatures with chosen s and nonce through h = s*k - r*d, re-encoded on 1..70 bytes per half with zero / non-zero padding; range = r, s in {0,1,n-1,n,n+1,2^256-1,...}; raw = arbitrary key / signature / hash bytes; key decoding of private and public keys. Oracle: the verification predicate exactly as the property words it, in the reference model. All cases non-trivial; tags give the reference verdict and reason. distinct = distinct case hash.".into()
     }
     fn shard_size(&self) -> u64 {
         25
@@ -318,6 +341,12 @@ impl Property for C08 {
             )
                 .prop_map(move |(pk, sig, hv)| Case::Raw { c, pk, sig, hv })
                 .boxed(),
+            7 => {
+                let n = schemes()[c as usize].curve.order.clone();
+                ((0..crate::gen::SCALAR_CLASSES.len()).prop_flat_map(move |k| crate::gen::scalar_strategy(&n, k)), prop::collection::vec(any::<u8>(), 40), key_strategy(), any::<bool>())
+                    .prop_map(move |(u, v, d, swap)| Case::ChosenUV { c, d, u: u.to_bytes_le(), v, swap })
+                    .boxed()
+            }
             6 => (
                 prop_oneof![2 => prop::collection::vec(any::<u8>(), 32), 1 => (0u8..8).prop_map(|i| vec![i]), 1 => (1u16..400).prop_map(move |i| { let sch = &schemes()[c as usize]; (sch.curve.p.clone() - &sch.curve.order - BigUint::from(i)).to_bytes_le() })],
                 any::<bool>(), any::<bool>(), boundary_int(c), prop::collection::vec(any::<u8>(), 32), prop::sample::select(vec![false, false, true]), prop::sample::select(vec![32u8, 32, 33, 40]),
